@@ -232,4 +232,20 @@ theorem level_tiles_after_accept (s t : BS) (reported : Nat) (h : s.Inv)
   rw [h1] at this
   exact this
 
+
+/-- no gap, stated per instance: at a level that is rejected throughout, every instance 1..N lies in one of the requested ranges -/
+theorem every_instance_requested (s : BS) (h : s.Inv) (h0 : s.index = 0) (fuel : Nat) (hf : s.instances ≤ fuel)
+    (i : Nat) (h1 : 1 ≤ i) (h2 : i ≤ s.instances) : ∃ r ∈ level s fuel, r.1 ≤ i ∧ i ≤ r.2 := by
+  have hm : i ∈ (level s fuel).flatMap expand := by
+    rw [level_tiles s h h0 fuel hf]; simp [List.mem_range'_1]; omega
+  obtain ⟨r, hr, hi⟩ := List.mem_flatMap.mp hm
+  refine ⟨r, hr, ?_⟩
+  simp [expand, List.mem_range'_1] at hi
+  omega
+
+/-- no overlap, stated on the expansion: no instance is named twice at one level -/
+theorem no_instance_requested_twice (s : BS) (h : s.Inv) (h0 : s.index = 0) (fuel : Nat) (hf : s.instances ≤ fuel) :
+    ((level s fuel).flatMap expand).Nodup := by
+  rw [level_tiles s h h0 fuel hf]; exact List.nodup_range' 1
+
 end Cvise.C15
